@@ -1,6 +1,6 @@
 // C05 — no template source or context value makes the engine panic or hang.
 //
-// Bounded-exhaustive enumeration of four input spaces against the real engine, each case in an
+// Bounded-exhaustive enumeration of five input spaces against the real engine, each case in an
 // expendable worker process (a Go fatal error or a hang kills only the worker; vlib isolates the
 // culprit case):
 //
@@ -13,6 +13,10 @@
 //	grid  every construct that takes operands (each filter with 0..3 arguments, each function, each
 //	      test, each operator, item/attribute access, for, in, include, ...) x every Go value shape
 //	      for the subject x 25 (thorough: all 92) shapes for the first argument x 4 (8) for the second
+//	hist  render histories on ONE engine: a render that fails inside an include (13 failing leaves x
+//	      12 include option sets x 11 placements), then 23 sound templates with includes nested 1..3
+//	      deep that write to / read through their contexts; several rounds, without and with forced
+//	      garbage collections; also the reverse order, the same and two different failures in a row
 //	bin   every byte string of length <= 2, every string of length <= 6 (thorough 8) over six boundary bytes, and
 //	      for eight valid serialisations every prefix, every single-byte substitution and every
 //	      length prefix rewritten to seven boundary values, as compiled-template data
@@ -238,14 +242,14 @@ var onlyFam = os.Getenv("C05_ONLY")
 func main() {
 	vlib.Main(vlib.Spec{
 		ID: "C05", Level: "exploration",
-		Rule: "bounded-exhaustive: (lex) all sequences of <=k lexemes - free, inside {% tag ... %}, inside {{ ... }} - spaced/unspaced, also behind a 4100-byte prefix (second tokenizer); (mut) all distance-1 lexeme and byte mutations and truncations of a 94-template corpus, deep nestings; (grid) each of 563 operand-taking constructs x each of 92 Go value shapes for the subject x 25 (thorough: 92) shapes for the first argument x 4 (thorough: 8) for the second; (bin) all byte strings <=2, all strings <=6 (thorough: 8) over 6 boundary bytes, all prefixes / single-byte substitutions / boundary length prefixes of 8 valid serialisations. Each case: fresh engine, parse, render, then a canary on the same engine; panics recovered and reported, fatal errors and hangs isolated by the worker protocol. Non-trivial = lex/mut: the source contains a tag opener (the tag parsers are reached); grid: the template parsed and was rendered with a subject that is not a plain untyped scalar; bin: the decoder got past the version byte or into the gob fallback with >= 2 bytes",
+		Rule: "bounded-exhaustive: (lex) all sequences of <=k lexemes - free, inside {% tag ... %}, inside {{ ... }} - spaced/unspaced, also behind a 4100-byte prefix (second tokenizer); (mut) all distance-1 lexeme and byte mutations and truncations of a 94-template corpus, deep nestings; (grid) each of 563 operand-taking constructs x each of 92 Go value shapes for the subject x 25 (thorough: 92) shapes for the first argument x 4 (thorough: 8) for the second; (hist) on one engine, every history [render failing inside an include: 13 failing leaves x 12 include option sets (plain/with/only/sandboxed/ignore missing and combinations, failing with-expression) x 11 placements (top, loop, capture, apply, macro, block, nested 2 and 3 deep) x policy installed or not] then [23 sound templates with includes nested 1..3 deep using set/for/macro/with/only/lookups], 4 rounds (thorough: 23), orders FS/SF/FFS and two different failures in a row, with 0/1/2 forced GCs in between - every render must not panic and must give what an engine without history gives; (bin) all byte strings <=2, all strings <=6 (thorough: 8) over 6 boundary bytes, all prefixes / single-byte substitutions / boundary length prefixes of 8 valid serialisations. Each case: fresh engine, parse, render, then a canary on the same engine; panics recovered and reported, fatal errors and hangs isolated by the worker protocol. Non-trivial = lex/mut: the source contains a tag opener (the tag parsers are reached); grid: the template parsed and was rendered with a subject that is not a plain untyped scalar; hist: the failing render really returned an error; bin: the decoder got past the version byte or into the gob fallback with >= 2 bytes",
 		Assumptions: []string{
 			"'every byte string' is bounded as stated in Rule; 'hang' = a worker that prints no progress for 120 s (25 s when re-run alone), confirmed twice on the case alone",
 			"integers that drive the SIZE of a result (range bounds, `..` bounds, slice/cycle positions are fine) are kept small: range(0, 2^63-1) asks for 2^63 elements and is not distinguishable from a hang",
 			"unterminated recursion written by the template and panics raised inside caller-supplied callbacks are outside the guarantee and are not generated (context values only carry methods that cannot panic)",
 			"allocation bound for decoding compiled data: TotalAlloc delta <= 16 MiB + 64*N for N input bytes",
 		},
-		QuickDeadline: 150, ThoroughDeadline: 840,
+		QuickDeadline: 240, ThoroughDeadline: 840,
 		Run: func(t *vlib.T) {
 			fams := []struct {
 				name string
